@@ -328,6 +328,9 @@ class SimCF:
             if cmd == 4:
                 if not ok or not self.params[idx].get('pers'):
                     return [(h, data[:3] + bytes([ENOENT]))]
+                forced = self._hook('persist_err', cmd, idx)
+                if forced:
+                    return [(h, data[:3] + bytes([forced]))]
                 p = self.params[idx]
                 fmt = PARAM_TYPES[p['t']][1]
                 if p.get('s') is None:
